@@ -889,7 +889,10 @@ func judge(h c25History, run *c25Run) (out []c25Verdict, evals int) {
 			continue
 		}
 		if cl.Err != "" {
-			if failureExpected(cl.op) {
+			// a refused acquire is a reply and needs its own server event; any other error
+			// (the connection had already ended, e.g. after an earlier query timed out:
+			// "protocol is shutting down") is no reply at all and claims nothing
+			if failureExpected(cl.op) && strings.Contains(cl.Err, "acquire failure") {
 				matchCalls = append(matchCalls, cl)
 			}
 			continue
